@@ -644,6 +644,11 @@ func runBrokerScenario(o *out, tag, replay string, gen func(r *rng) (plain, hook
 		for _, m := range mls {
 			o.emit(fmt.Sprintf("!C09.mux role=%s kind=%s", m.role, m.kind), m.impl, m.pred)
 		}
+		// a listener nobody dials, left open on each side, then the pair is closed: no knock loop stays behind
+		{
+			impl, pred := runMuxOpenListenerThenClose()
+			o.emit("!C09.mux kind=open-listener-then-close", impl, pred)
+		}
 		// accepted, dialled, never served, closed — then a fresh pair (both roles)
 		for _, role := range []string{"server", "client"} {
 			impl, pred := runMuxAcceptedNeverServed(role)
